@@ -64,7 +64,50 @@ Theorem committed_version_stays_restorable (r : repo) (h : list item) (p : path)
   ws_read (fs (run_items (run_items r h) [UDelete p; XRecheck o [p]])) p = Some c.
 Proof. exact (stays_restorable_final r h p c o). Qed.
 
+(* ---- Part 3: copy and move (M-REPO extension, Repo/Ext.v) ------------------------------------------------------------------
+   The histories of the property also contain copy and move.  For EVERY reachable repository (Repo/ExtReach.xreach: histories
+   of user actions, track / carry-in / recheck, copy / move / remove / untrack outside the known classes) and both values of
+   every repair switch, a copy or move keeps every cache object with its entry and its bytes: *)
+From XV Require Import Glob.Match Repo.Ext Repo.ExtProofs Repo.ExtShare Repo.ExtReach.
+
+Theorem copy_move_retain_versions fl (r : xrepo) (it : xitem) (a : caddr) (e : entry) :
+  xreach fl r -> xclean r it = true -> is_copy_or_move it = true -> oget (xfs r) a = Some e ->
+  oget (xfs (fst (do_xitem fl r it))) a = Some e /\ obj_read (xfs (fst (do_xitem fl r it))) a = obj_read (xfs r) a.
+Proof. exact (copy_move_retain fl r it a e). Qed.
+
+(* "for every tracked path, the set of restorable versions equals the set of versions ever committed" across a move: the
+   address of a version is (digest, extension of the CURRENT path), so after `move s d` every version dg of the digest
+   history of the moved entity that had an object under s must have one under d (bytes of the same normal form).
+   This holds outside the class of P3 -- destinations with another extension while the repair is absent; EMPTY when the
+   switch fixed_P3 (read from the source on every run) is on: *)
+Theorem moved_versions_follow fl : C19_move_at fl (K_cross_ext_fl fl).
+Proof. exact (move_outside_class fl). Qed.
+Theorem moved_versions_follow_fixed fl : fixed_P3 fl = true -> C19_move_at fl (fun _ _ => false).
+Proof. exact (fun P3 => proj2 (full_when_fixed fl P3)). Qed.
+Theorem cross_ext_class_empty_when_fixed fl s d : fixed_P3 fl = true -> K_cross_ext_fl fl s d = false.
+Proof. exact (K_cross_ext_empty_when_fixed_lemma fl s d). Qed.
+(* P3, the code as it is: `track a.txt; move a.txt b.dat` leaves the only version of b.dat without an object at its address *)
+Theorem cross_ext_versions_refuted : ~ C19_move_at as_is (fun _ _ => false).
+Proof. exact cross_ext_move_refuted_lemma. Qed.
+
+Example copy_move_retain_example :   (* a.txt tracked, then copied / moved to b.dat with the repair: the object of a.txt is kept *)
+  let r := run_xitems all_fixed r0 h_cross in
+  xreach all_fixed r /\
+  (forall it, In it [XCopy c_plain s_a_txt s_b_dat; XMove m_plain s_a_txt s_b_dat] ->
+     xclean r it = true /\ is_copy_or_move it = true /\
+     obj_read (xfs (fst (do_xitem all_fixed r it))) (cache_addr s_a_txt (digest_of B3 Auto s_hello)) = Some s_hello /\
+     obj_read (xfs (fst (do_xitem all_fixed r it))) (cache_addr s_b_dat (digest_of B3 Auto s_hello)) = Some s_hello).
+Proof.
+  split; [exact (h_cross_reach all_fixed eq_refl)|].
+  intros it [<-|[<-|[]]]; vm_compute; repeat split; reflexivity.
+Qed.
+
 Print Assumptions commit_is_prefix.
 Print Assumptions versions_retained.
 Print Assumptions committed_version_stays_restorable.
 Print Assumptions commit_replays_to_its_records.
+Print Assumptions copy_move_retain_versions.
+Print Assumptions moved_versions_follow.
+Print Assumptions moved_versions_follow_fixed.
+Print Assumptions cross_ext_class_empty_when_fixed.
+Print Assumptions cross_ext_versions_refuted.
